@@ -342,6 +342,9 @@ def enumerate_variant(run, model, exe, variant, scen_list, pairs, stats, env=Non
                 if excused:
                     for b in excused:
                         run.hist("loss_equivalent_runs", "%s %s: %s" % (sc, b[0], re.sub(r"\d+", "N", b[1])[:50]))
+                        if k2 == 0:     # a pair that contains this lost datagram and shows the same
+                            single_keys.add((b[0], re.sub(r"\d+", "N", b[1])[:60] if b[0] == "wrong-result"
+                                             else "", chains[0]))
                     bad = [b for b in bad if b not in excused]
                     if not bad:
                         continue
